@@ -16,4 +16,4 @@ for d in glob.glob('/verif/harness/*'):
 os.makedirs('/verif/.work',exist_ok=True)
 json.dump({"Replace":rep},open('/verif/.work/ov.json','w'))
 PY
-./engine/gosymex -overlay .work/ov.json -pkgs ./internal/$pkg -harness github.com/juev/hledger-lsp/internal/$pkg.$h -out .work/r.json "$@"
+rm -f .work/r.json; ./engine/gosymex -overlay .work/ov.json -pkgs ./internal/$pkg -harness github.com/juev/hledger-lsp/internal/$pkg.$h -out .work/r.json "$@"
